@@ -584,6 +584,12 @@ func genPlanOpt(seed uint64, prop string, cold bool) *Plan {
 			}
 			return c
 		}
+		// discovered API: a few calls in most runs; long chains of them in some
+		// (values of library types are built up call by call)
+		pExtra := 0.08
+		if len(extraAPI) > 0 && r.chance(0.15) {
+			pExtra = 0.6
+		}
 		for t := 0; t < nTasks; t++ {
 			n := 1 + r.intn(maxOps)
 			var ops []Op
@@ -642,7 +648,7 @@ func genPlanOpt(seed uint64, prop string, cold bool) *Plan {
 						continue
 					}
 				}
-				if len(extraAPI) > 0 && r.chance(0.08) {
+				if len(extraAPI) > 0 && r.chance(pExtra) {
 					if op, ok := genExtraOp(r, p, func(ver int, mut bool) []int { return usable(t, mut, ver) }); ok {
 						ops = append(ops, op)
 						continue
@@ -1309,6 +1315,20 @@ func genExtraOp(r *rng, p *Plan, usable func(ver int, mut bool) []int) (Op, bool
 	var args []string
 	var objCells []int
 	for _, k := range fn.Params {
+		if strings.HasPrefix(k, "pool:") {
+			// a value of a library type that an earlier call returned to this
+			// task (the k-th most recent one; the operation is skipped if none)
+			args = append(args, fmt.Sprintf("p%d", r.intn(4)))
+			continue
+		}
+		if strings.HasPrefix(k, "vpool:") {
+			var el []string
+			for n := r.intn(4); n > 0; n-- {
+				el = append(el, fmt.Sprintf("p%d", r.intn(4)))
+			}
+			args = append(args, strings.Join(el, ","))
+			continue
+		}
 		if strings.HasPrefix(k, "json:") {
 			// an options struct: a random subset of its fields set
 			if r.chance(0.1) {
